@@ -243,7 +243,7 @@ fn gen_cause(rng: &mut Rng, p: &Profile, incb: bool) -> Op {
     let c = rng.below(6) as u8;
     match rng.weighted(&[8, 6, 10, 3, 2, 2, 3, 3, 3, 2, 1]) {
         0 if p.name == "C05" && rng.chance(1, 4) => Op::Wakeup,
-        0 if matches!(p.name.as_str(), "C02" | "C08") && rng.chance(1, 10) => Op::Stop,
+        0 if matches!(p.name.as_str(), "C02" | "C08" | "C13") && rng.chance(1, 10) => Op::Stop,
         0 => Op::Ping(sel),
         1 if p.name == "C02" && rng.chance(1, 12) => Op::SendBurst(sel),
         1 => Op::Send(sel),
